@@ -331,7 +331,35 @@ def replayer(obl, model):
     return False, 'no case reproduced'
 
 
+def _sweep_worker(t):
+    """every particle count 0..N for one thread count: a permutation into stable stripes (thread-chunk boundaries only misalign for
+    particular (N, nthread) pairs)"""
+    nt, nmax, seed = t
+    import numba
+    rng = np.random.default_rng(seed + nt)
+    try:
+        for N in range(nmax + 1):
+            pos = (rng.random((N, 3)) * 0.98 + 0.01).tolist()
+            w = rng.random(N).tolist()
+            for npart, ww in ((3, w),):
+                why = judge(pos, npart, 1.0, 0, ww, nt)
+                if why:
+                    return dict(pos=pos, npartition=npart, nthread=nt, weights=ww), f'N={N} nthread={nt} npartition={npart}: {why}'
+    finally:
+        numba.set_num_threads(numba.config.NUMBA_NUM_THREADS)
+    return None
+
+
 def bounded(run):
+    # sweep of (particle count, thread count) pairs
+    nmax = 70 if run.tier == 'quick' else 260
+    res = run.pmap(_sweep_worker, [(nt, nmax, run.seed) for nt in range(1, 17)])
+    for r in res:
+        if r:
+            run.bounded_violation('partition_parallel vs stable stripe order', r[0], r[1])
+            break
+    run.add_bounded('partition_parallel for every particle count and thread count', 16 * (nmax + 1), 16 * (nmax + 1),
+                    f'N = 0..{nmax} x nthread = 1..16, 3 stripes, with weights: permutation, stable stripes, offsets', [dict(N=61, nthread=7)])
     nev = 0
     cs = cases(run.seed + 9, 60 if run.tier == 'quick' else 1500)
     for pos, npart, box, coord, w in cs:
@@ -359,8 +387,15 @@ def bounded(run):
             if sorted(map(tuple, ps.tolist())) != sorted(map(tuple, P.tolist())):
                 run.bounded_violation('partition_parallel sort=True not a permutation', dict(pos=pos, npartition=npart), 'multiset differs')
                 return
+            # the weights move with their particles (rows of (x, y, z, w) are permuted as a whole)
+            rows_in = sorted(tuple(r) + (float(x),) for r, x in zip(P.tolist(), w))
+            rows_out = sorted(tuple(r) + (float(x),) for r, x in zip(ps.tolist(), np.asarray(ws).tolist()))
+            if rows_in != rows_out:
+                run.bounded_violation('partition_parallel sort=True separates weights from their particles', dict(pos=pos, npartition=npart, nthread=nt),
+                                      'the multiset of (position, weight) rows differs')
+                return
     run.add_bounded('compiled partition_parallel vs exact-rational stable counting sort', nev, len(cs),
-                    'N in {0,1,2,3,5,8,13,40}, npartition {1,2,3,4,7,16}, values on stripe boundaries / 0 / BoxSize, coord 0..2, threads {1,2,5,16}, weights on/off, float32/64; sort=True checked for order+permutation only',
+                    'N in {0,1,2,3,5,8,13,40}, npartition {1,2,3,4,7,16}, values on stripe boundaries / 0 / BoxSize, coord 0..2, threads {1,2,5,16}, weights on/off, float32/64; sort=True checked for order, permutation and position/weight pairing',
                     [dict(N=len(cs[0][0]), npartition=cs[0][1], coord=cs[0][3])])
 
 
